@@ -378,7 +378,7 @@ PROPS["C17"] = {
     "id": "C17", "level": "exploration",
     "rule": "generated cases on real loopback TCP: node A with 1..6 sender goroutines, 1..4 target actors on node B and 0..3 on a third node C; each sender follows a generated script of 1..40 "
             "steps (Send / SendWithSender with its own sender PID, sender 0 without; 1 step in 10 a Request that the target answers with the request's token), then a final marker per target.  "
-            One case in four runs every node WithTLS (mutual authentication against a throw-away CA).  "
+            "One case in four runs every node WithTLS (mutual authentication against a throw-away CA).  "
             "Per (sender, target) the received sequence must equal the sent one (exactly once, in order, with the sender PID), replies must carry the request's token; afterwards Start on a running "
             "remote must fail harmlessly, Stop().Wait() twice must return, and a TCP dial to the address must be refused.  Unreachable episodes (3 in quick, 16 in thorough, in parallel): k messages "
             "to an address nobody listens on -> RemoteUnreachableEvent for it and exactly k DeadLetterEvents naming its stream writer; then the peer is started on that address and a later send must "
